@@ -74,6 +74,9 @@ func TestC10(t *testing.T) {
 		for _, tr := range []string{"tcp", "ipc", "tls+tcp"} {
 			cases = append(cases, mon.CaseSpec{Name: "acceptbusy/" + tr, Spec: spec{Kind: "acceptbusy", Tran: tr}})
 		}
+		for _, tr := range []string{"tcp", "tls+tcp", "ipc"} {
+			cases = append(cases, mon.CaseSpec{Name: "writerstalled/" + tr, Spec: spec{Kind: "writerstalled", Tran: tr}})
+		}
 		for _, tr := range []string{"ipc", "tcp", "ipc"} {
 			cases = append(cases, mon.CaseSpec{Name: "acceptflood/" + tr, Spec: spec{Kind: "acceptflood", Tran: tr}})
 		}
@@ -129,6 +132,8 @@ func TestC10(t *testing.T) {
 			runDialWaiting(c, sp)
 		case "acceptflood":
 			runAcceptFlood(c, sp)
+		case "writerstalled":
+			runWriterStalled(c, sp)
 		case "loser":
 			runCloseLoser(c, sp)
 		}
@@ -396,15 +401,35 @@ func runBlocked(c *mon.Case, sp spec) {
 			})
 		}
 	default:
+		if p == "sub" {
+			// an endpoint that has subscribed and then unsubscribed everything is still an endpoint of the
+			// socket: a Recv parked on it is released by Close like any other
+			s.SetOption(mangos.OptionSubscribe, "gone")
+			s.SetOption(mangos.OptionUnsubscribe, "gone")
+			for i, cx := range cxs {
+				if i%2 == 0 {
+					cx.SetOption(mangos.OptionSubscribe, "gone")
+					cx.SetOption(mangos.OptionUnsubscribe, "gone")
+				}
+			}
+		}
 		start("Recv", func() error { _, e := s.Recv(); return e })
 		for i, cx := range cxs {
 			cx := cx
 			start(fmt.Sprintf("ctx%d.Recv", i), func() error { _, e := cx.Recv(); return e })
 		}
 		// senders: keep sending until blocked or failed (a full queue or no peer blocks; best-effort patterns just return)
+		fill := []byte("fill")
+		nfill := 400
+		if sp.Peer && sp.Tran != "inproc" && c.Rand.Intn(2) == 0 {
+			// large messages towards a peer that reads nothing: the connection's writer ends up stalled
+			// inside the transport with the kernel buffers full, which is where Close has to interrupt it
+			fill = make([]byte, 96<<10)
+			nfill = 160
+		}
 		start("Send-loop", func() error {
-			for i := 0; i < 400; i++ {
-				if e := s.Send([]byte("fill")); e != nil {
+			for i := 0; i < nfill; i++ {
+				if e := s.Send(fill); e != nil {
 					return e
 				}
 			}
